@@ -503,6 +503,7 @@ def run(ctx):
         raise AnalysisError("anchor: no Row(...) construction found in anytree/render.py")
     # ------------------------------------------------------------------ V3
     _text_rule(ctx, typer, p, undecided)
+    _by_attr_value_rule(ctx, p, undecided)
     # ------------------------------------------------------------------ V4 (reprs: name tables are sequences)
     from .common import rule_mixed_membership
     scope = [g for g in p.all_funcs if g.module.relpath in ("anytree/node/util.py", "anytree/node/node.py", "anytree/node/anynode.py",
@@ -513,6 +514,115 @@ def run(ctx):
     ctx.floor("V1", 6)
     ctx.floor("V2", 2)
     ctx.floor("V3", 2)
+
+
+def _by_attr_value_rule(ctx, p, undecided):
+    """V3 (value): by_attr prints the node's attribute value as it is - `attrname(node)` for a callable selector, else
+    `getattr(node, attrname, <fallback for a missing attribute>)`; a value that is merely falsy (0, False, None, {}) is a value"""
+    f = p.func("RenderTree", "by_attr")
+    ctx.touch(f)
+    attrp = f.posparams[1] if len(f.posparams) > 1 else "attrname"
+    local_defs = {}
+    for n in ast.walk(f.node):
+        if isinstance(n, ast.FunctionDef) and n is not f.node:
+            local_defs.setdefault(n.name, []).append(n)
+    assigns = {}
+    for n in ast.walk(f.node):
+        if isinstance(n, ast.Assign) and len(n.targets) == 1 and isinstance(n.targets[0], ast.Name):
+            assigns.setdefault(n.targets[0].id, []).append(n.value)
+    # the formatting calls: a call inside by_attr whose arguments are (row, value) with `row` a loop variable over self
+    sinks = []
+    for lp in ast.walk(f.node):
+        if isinstance(lp, (ast.For, ast.comprehension)) and isinstance(lp.target, ast.Name) and norm(lp.iter) == f.selfname:
+            row = lp.target.id
+            scope = lp.body if isinstance(lp, ast.For) else []
+            holder = lp if isinstance(lp, ast.For) else None
+            nodes = [x for st in scope for x in ast.walk(st)] if holder is not None else [x for x in ast.walk(f.node)]
+            for c in nodes:
+                if isinstance(c, ast.Call) and len(c.args) == 2 and norm(c.args[0]) == row and not c.keywords and isinstance(c.func, ast.Name) \
+                        and c.func.id not in ("getattr", "hasattr", "isinstance"):
+                    sinks.append((c, row))
+    if not sinks:
+        undecided.append("V3: where RenderTree.by_attr hands (row, value) to the line formatter is not found")
+        return
+
+    class _Sub(ast.NodeTransformer):
+        def __init__(self, env):
+            self.env = env
+
+        def visit_Name(self, n):
+            return self.env.get(n.id, n) if isinstance(n.ctx, ast.Load) else n
+
+    import copy
+
+    def leaves(e, depth=0):
+        """[(kind, expr)]: kind in ok / falsy / unknown"""
+        if depth > 6:
+            return [("unknown", e)]
+        if isinstance(e, ast.Name):
+            if e.id in assigns and e.id not in local_defs:
+                return [x for v in assigns[e.id] for x in leaves(v, depth + 1)]
+            return [("unknown", e)]
+        if isinstance(e, ast.Call) and isinstance(e.func, ast.Name):
+            fn = e.func.id
+            if fn == "getattr" and len(e.args) in (2, 3) and norm(e.args[1]) == attrp and _is_node_expr(e.args[0]) and not e.keywords:
+                return [("ok", e)]
+            if fn == attrp and len(e.args) == 1 and _is_node_expr(e.args[0]) and not e.keywords:
+                return [("ok", e)]
+            out = []
+            targets = list(local_defs.get(fn, []))
+            aliases = assigns.get(fn, [])
+            for a in aliases:
+                if isinstance(a, ast.Name) and a.id == attrp and len(e.args) == 1 and _is_node_expr(e.args[0]):
+                    out.append(("ok", e))
+                elif isinstance(a, ast.Lambda):
+                    env = {q.arg: v for q, v in zip(a.args.args, e.args)}
+                    out += leaves(_Sub(env).visit(copy.deepcopy(a.body)), depth + 1)
+                else:
+                    out.append(("unknown", e))
+            for d in targets:
+                rets = [r for r in ast.walk(d) if isinstance(r, ast.Return)]
+                simple = all(isinstance(st, (ast.Return, ast.Expr, ast.Assign)) for st in d.body)
+                if not rets or not simple:
+                    out.append(("unknown", e))
+                    continue
+                env = {q.arg: v for q, v in zip(d.args.args, e.args)}
+                for st in d.body:
+                    if isinstance(st, ast.Assign) and len(st.targets) == 1 and isinstance(st.targets[0], ast.Name):
+                        env[st.targets[0].id] = _Sub(dict(env)).visit(copy.deepcopy(st.value))
+                for r in rets:
+                    out += leaves(_Sub(env).visit(copy.deepcopy(r.value)), depth + 1) if r.value is not None else [("unknown", e)]
+            if targets or aliases:
+                return out
+            return [("unknown", e)]
+        if isinstance(e, ast.BoolOp) and isinstance(e.op, ast.Or):
+            first = leaves(e.values[0], depth + 1)
+            if all(k == "ok" for k, _ in first):
+                return [("falsy", e)]
+            return [("unknown", e)]
+        if isinstance(e, ast.IfExp):
+            t = e.test.operand if isinstance(e.test, ast.UnaryOp) and isinstance(e.test.op, ast.Not) else e.test
+            tl = leaves(t, depth + 1)
+            if tl and all(k == "ok" for k, _ in tl):
+                return [("falsy", e)]
+            if isinstance(e.test, ast.Call) and norm(e.test.func) == "callable" and norm(e.test.args[0]) == attrp:
+                return leaves(e.body, depth + 1) + leaves(e.orelse, depth + 1)
+            return [("unknown", e)]
+        return [("unknown", e)]
+
+    def _is_node_expr(x):
+        return (isinstance(x, ast.Attribute) and x.attr == "node") or isinstance(x, ast.Name)
+    for c, row in sinks:
+        ls = leaves(c.args[1])
+        if any(k == "falsy" for k, _ in ls):
+            bad = next(x for k, x in ls if k == "falsy")
+            ctx.viol("V3", f, c, "the value printed by by_attr is `%s`: an attribute value that is falsy (0, 0.0, False, None, {}) is replaced "
+                     "instead of printed, so the row no longer shows pre + first line of the node's attribute" % norm(bad)[:80],
+                     construct="RenderTree.by_attr: falsy value replaced")
+        elif any(k == "unknown" for k, _ in ls):
+            undecided.append("V3: how RenderTree.by_attr obtains the printed value (`%s`) is not followed" % norm(next(x for k, x in ls if k == "unknown"))[:70])
+        else:
+            ctx.inst("V3", f, c, "printed value is attrname(node) / getattr(node, attrname, <fallback>) unchanged")
 
 
 def _conts_alts(cfg, e, at, contsvar, last_var, depth=0):
